@@ -560,7 +560,8 @@ func TestVerifC08(t *testing.T) {
 			}
 			return roots
 		},
-		ExhaustMax: map[string]int{"quick": 200000, "thorough": 2000000},
+		ExhaustLabels: func(string, int) []string { return []string{"mode", "len", "op"} },
+		ExhaustMax:    map[string]int{"quick": 200000, "thorough": 2000000},
 		Runs:       map[string]int{"quick": 30000, "thorough": 400000},
 		NoCrypto:   true,
 		Real:       []string{"RegistrationManager.TrackRegistration / AddRegistration / GetRegistrations / MarkActive / RemoveOldRegistrations", "RegisteredDecoys (both maps, expiry rule)", "min / prefix / obfs4 GetIdentifier, core.GenSharedKeys"},
